@@ -109,6 +109,12 @@ static void *s_page_bind(void *addr, struct sba_bin *bin) {
     return (uint8_t *)addr + sizeof(struct page_header);
 }
 
+/* erase the header of a page that is about to be given back. Plain stores in front of free() are dead stores
+ * which an optimizing compiler removes, so this has to go through aws_secure_zero */
+static void s_page_unbind(struct page_header *page) {
+    aws_secure_zero(page, sizeof(struct page_header));
+}
+
 /* Wraps OS-specific aligned malloc implementation */
 static void *s_aligned_alloc(size_t size, size_t align) {
 #ifdef _WIN32
@@ -190,7 +196,7 @@ static void s_sba_clean_up(struct small_block_allocator *sba) {
             struct page_header *page = page_addr;
             AWS_ASSERT(page->alloc_count == 0 && "Memory still allocated in aws_sba_allocator (bin)");
             /* ensure that the page tag is erased, in case nearby memory is re-used */
-            page->tag = page->tag2 = 0;
+            s_page_unbind(page);
             s_aligned_free(page);
         }
         if (bin->page_cursor) {
@@ -198,7 +204,7 @@ static void s_sba_clean_up(struct small_block_allocator *sba) {
             struct page_header *page = page_addr;
             AWS_ASSERT(page->alloc_count == 0 && "Memory still allocated in aws_sba_allocator (page)");
             /* ensure that the page tag is erased, in case nearby memory is re-used */
-            page->tag = page->tag2 = 0;
+            s_page_unbind(page);
             s_aligned_free(page);
         }
 
@@ -373,7 +379,7 @@ static void s_sba_free_to_bin(struct sba_bin *bin, void *addr) {
             }
         }
         /* ensure that the page tag is erased, in case nearby memory is re-used */
-        page->tag = page->tag2 = 0;
+        s_page_unbind(page);
         s_aligned_free(page);
         return;
     }
